@@ -9,9 +9,7 @@ import (
 
 // A small model of package reflect: just what unknownErrShards in kgo uses. A reflect.Value
 // is represented as structure{rtype{t}, payload, nil} (the three slots of the real struct are
-// reused); a reflect.Type is iface{reflectTypeMarker, rtype{t}}.
-
-var reflectTypeMarker = types.NewNamed(types.NewTypeName(0, nil, "verifReflectType", nil), types.NewStruct(nil, nil), nil)
+// reused); a reflect.Type is iface{*reflect.rtype, rtype{t}} (see ext_a1_reflect.go).
 
 func mkRV(t types.Type, v value) value { return structure{rtype{t}, v, nil} }
 
@@ -25,16 +23,10 @@ func rvParts(v value) (types.Type, value) {
 }
 
 func init() {
-	externals["reflect.TypeOf"] = h(func(fr *frame, a []value) value {
-		itf := a[0].(iface)
-		if itf.t == nil {
-			return iface{}
-		}
-		return iface{t: reflectTypeMarker, v: rtype{itf.t}}
-	})
 	externals["reflect.SliceOf"] = h(func(fr *frame, a []value) value {
-		rt := a[0].(iface).v.(rtype)
-		return iface{t: reflectTypeMarker, v: rtype{types.NewSlice(rt.t)}}
+		in := a[0].(iface)
+		rt := in.v.(rtype)
+		return iface{t: in.t, v: rtype{types.NewSlice(rt.t)}}
 	})
 	externals["reflect.ValueOf"] = h(func(fr *frame, a []value) value {
 		itf := a[0].(iface)
